@@ -186,7 +186,8 @@ def _mku(pool, op):
             kw["vertices"] = _as_container(vs, ckind)
         if laws is not None:
             kw["laws"] = pool.get(laws)
-        return Universe(**kw)
+        # (every third universe is an instance of a subclass: plain, without overrides - or one that is falsy)
+        return (Universe, zoo.World, Universe, zoo.FalsyUniverse, Universe, zoo.World)[idx % 6](**kw)
 
     res = _wrap(pool, t, register=name)
     if res[0] == "ok" and not pool.blind:
